@@ -364,4 +364,25 @@ CHECKS["C14"] = {
     "level_note": "Trusted: the ledger analysis in harness/c14_lifecycle.cpp; the instrumented hooks as the definition of 'started' / 'stopped'.",
 }
 
+CHECKS["C15"] = {
+    "title": "Captured errors tick once, where they happen, and do not disturb the rest",
+    "level": "fault_enumeration",
+    "technique": "exhaustive enumeration of throw sets x input histories over error-capturing programs; differential oracle against the fault-free "
+                 "run of the same program and inputs",
+    "design_ref": "DESIGN.md 2/C15",
+    "parts": [{"name": "capture", "exe": "c15_errors", "sources": ["c15_errors.cpp"], "shards": 16}],
+    "rule": "programs: a throwing node under exception_time_series capture; the same with a self-scheduling (timer) node; try_except_ around a "
+            "one-node child, a two-node child (failing node at index 1) and a three-node child; map_ with keyed capture over a 3-key dictionary with "
+            "a two-node child. Every non-empty input tick pattern over 5 cycles x every subset of cycles in which the node throws (map: every "
+            "per-key subset). Oracle vs the fault-free run: run() does not throw; exactly one error tick per throwing evaluation, in that cycle, "
+            "with the exception's message; the failing node's ordinary output in non-throwing cycles equals the fault-free output (scheduled "
+            "evaluations continue); the independent sibling stream is identical; map: errors under the failing key only, other keys identical. "
+            "non-trivial = at least one throwing evaluation.",
+    "bounds": {"quick": "T=5; try_except programs with inputs ticking in cycle 0; map: key 1 all 32 subsets, keys 2-3 8 subsets", "thorough": "all input patterns; map: 32^3 subsets"},
+    "min_counters": {"quick": {"nontrivial": 4000, "capture.cases_m": 1000, "capture.cases_2": 200}},
+    "assumptions": COMMON_ASSUMPTIONS + ["The failing node's ordinary output in the error cycle is a don't-care."],
+    "level_text": "Complete enumeration of throw sets over 5 cycles for each program, decided differentially against the fault-free run.",
+    "level_note": "Trusted: the fault-free run of the same program as the reference.",
+}
+
 NOT_APPLICABLE = {}
